@@ -291,3 +291,26 @@ Print Assumptions c04_moves_never_on_forbidden_row.
 Print Assumptions c04_moves_any_cells_keep_orientation.
 Print Assumptions c04_moves_any_cell_reads.
 Print Assumptions c04_raw_place_unguarded_refuted.
+
+(* ======================================================================================== *)
+(* C04 for the CIRCUIT exposed by detailed placement (composition; definitions and hypotheses as explained in
+   Properties_C02.v, last part): DetailedExport.write_back = DetailedPlacement::exportPlacement *)
+Require Import CV.DetailedInit CV.DetailedInitProofs CV.DetailedExport CV.DetailedExportProofs.
+(* [F on the stated domain, rows of known orientation] C04 for the exposed circuit: with the
+   orientations legalization leaves (orient_ok before c) and every history whose raw place operations
+   target a row allowed for the cell (dhist_allowed; swap / insert need nothing), every polarised
+   movable cell of the exposed circuit has the documented orientation of the row under its bottom-left
+   corner, never INVALID, and every cell without polarity has the orientation it had in `before` *)
+Theorem c04_write_back_orient_ok : forall before c rh s ops,
+  std_design c rh -> (forall r, In r (rows c) -> ro r <> oUNKNOWN) -> legal c -> orient_ok before c ->
+  from_circuit c = DOk s -> dshifts_ok s ops -> dhist_allowed s ops -> d_loose (run_dops s ops) = [] ->
+  orient_ok before (write_back c (run_dops s ops)).
+Proof. exact write_back_orient_ok. Qed.
+
+Theorem c04_write_back_orient_ok_optimiser_moves : forall before c rh s ops,
+  std_design c rh -> (forall r, In r (rows c) -> ro r <> oUNKNOWN) -> legal c -> orient_ok before c ->
+  from_circuit c = DOk s -> forallb closed_dop ops = true -> dshifts_ok s ops ->
+  orient_ok before (write_back c (run_dops s ops)).
+Proof. exact write_back_orient_ok_closed. Qed.
+Print Assumptions c04_write_back_orient_ok.
+Print Assumptions c04_write_back_orient_ok_optimiser_moves.
